@@ -141,8 +141,8 @@ def _scalar(fd, val, numeric_enums, where):
     if t == FD.TYPE_BOOL:
         if isinstance(val, bool):
             return val
-        if isinstance(val, str) and val.lower() in ('true', 'false'):
-            return val.lower() == 'true'
+        if isinstance(val, str) and val in ('true', 'false'):      # the JSON literals, as a query parameter carries them
+            return val == 'true'
         raise Mismatch('json-value', f'{where}: bool {fd.name} sent as {val!r}', key=fd.name)
     if t == FD.TYPE_STRING:
         if not isinstance(val, str):
